@@ -71,6 +71,7 @@ def _finish(pid, tier, seed, t0, outs, mc_stats, rule, assumptions, extra_cov=No
         'other_clause_failures': others[:50],
         'known_findings_hit': {k: len(v) for k, v in known.items()},
         'machinery_failures': len(machinery),
+        'unjudged_executions': sum(getattr(o, 'unjudged', 0) for o in outs),
         'tlc': {'trace_validation_jvms': sum(o.stats['jvms'] for o in outs), 'model_checking': mc_stats},
     }
     if extra_cov:
